@@ -149,8 +149,8 @@ def check_returned(col, kind, factory, q):
         canon = M.parse(q).encode()
         o1 = M.run(q, cache=c)
         col.evaluations += 1
-        if o1.ok != ref.ok:
-            return
+        if o1.ok != ref.ok or o1.state is None:
+            return      # (evaluate raised: there is no returned state to tamper with)
         served_md = copy.deepcopy(M.quiet(c.get_metadata, canon))
         mutate_state(o1.state)
         snap1 = snapshot(o1.state)
